@@ -427,7 +427,9 @@ impl Shadow {
                     "#{} destructed ({}) at seq {} inside the critical section of t{} which holds a Snapshot of it (from {}, made at seq {})",
                     o, path_name(depth), seq, h.tid, h.src.name(), h.seq
                 );
-                sim().violation("C02", "destruct-under-snapshot", &format!("destruct-under-snapshot/{}/src={}", path_name(depth), h.src.name()), &det);
+                // C05: "the reference they return obeys C01/C02" for snapshots that came from an upgrade
+                let props = if h.src == Src::WsnapUpgrade { "C02,C05" } else { "C02" };
+                sim().violation(props, "destruct-under-snapshot", &format!("destruct-under-snapshot/{}/src={}", path_name(depth), h.src.name()), &det);
             }
         }
         if depth > 0 {
